@@ -167,12 +167,23 @@ def sites(W):
                     if pt[0] == "agg" and pt[1] in ("array", "tuple"):
                         # params![a, b] / [a, b] / (a, b): positional parameters in order
                         s.params = [unwrap_param(v) for _, v in pt[2]]
+                        # named_params!{":a": x, ..} = &[(":a", &x as &dyn ToSql), ..]: bound by name
+                        elems = [unwrap_param(v) for _, v in pt[2]]
+                        if pt[1] == "array" and elems and all(e[0] == "agg" and e[1] == "tuple" and len(e[2]) == 2 and e[2][0][1][0] == "const"
+                                                              and isinstance(e[2][0][1][2], str) and e[2][0][1][2][:1] in ":@$" for e in elems):
+                            named = {e[2][0][1][2]: unwrap_param(e[2][1][1]) for e in elems}
+                            names = [st.get("param_names") for st in s.stmts]
+                            s.params = None
+                            if names and all(n == names[0] for n in names) and names[0] and set(names[0]) == set(named) and len(named) == len(elems):
+                                s.params = [named[n] for n, _k in sorted(names[0].items(), key=lambda kv: kv[1])]
                 if ri is not None and len(args) > ri:
                     ct = args[ri]
                     if ct[0] == "agg" and isinstance(ct[1], tuple) and ct[1][0] == "closure":
                         s.closure = W.prog.body(ct[1][1])
-                        if s.closure is not None:
-                            s.rows = row_reads(W, s.closure)
+                    elif ct[0] == "fn":
+                        s.closure = W.prog.body(ct[1])       # a named row-mapping function instead of a closure
+                    if s.closure is not None:
+                        s.rows = row_reads(W, s.closure)
                 out.append(s)
             elif d.rsplit("::", 1)[-1] in ("pragma_update", "pragma_update_and_check"):
                 # con.pragma_update(schema, "name", value) == PRAGMA name=value : modelled as that statement
